@@ -804,49 +804,67 @@ func checkIteratorReset(c *core.Ctx) {
 		c.Undecided("R20.5", "stackIterator.reset", 0, "not found")
 		return
 	}
-	isUnwind := func(in ssa.Instruction) bool {
+	isUnwindCall := func(in ssa.Instruction) (bool, *ssa.Function) {
 		call, ok := in.(*ssa.Call)
 		if !ok {
-			return false
+			return false, nil
 		}
 		if sc := call.Common().StaticCallee(); sc != nil {
-			return strings.Contains(strings.ToLower(sc.Name()), "unwindstack")
+			return strings.Contains(strings.ToLower(sc.Name()), "unwindstack"), sc
 		}
 		// package-level function variable `unwindStack`
 		if u, ok := call.Common().Value.(*ssa.UnOp); ok {
 			if g, ok := u.X.(*ssa.Global); ok {
-				return strings.Contains(strings.ToLower(g.Name()), "unwindstack")
+				return strings.Contains(strings.ToLower(g.Name()), "unwindstack"), nil
 			}
 		}
-		return false
+		return false, nil
 	}
-	// every path from entry to a return passes an unwind call
-	seen := map[*ssa.BasicBlock]bool{}
+	// every path from entry to a return passes an unwind call, directly or through a helper of the same package all of
+	// whose paths do (a wrapper is treated as "walks the stack" when all its paths do)
 	var bad token.Pos
-	var visit func(b *ssa.BasicBlock) bool
-	visit = func(b *ssa.BasicBlock) bool {
-		for _, in := range b.Instrs {
-			if isUnwind(in) {
-				return true
-			}
+	var always func(fn *ssa.Function, depth int) bool
+	always = func(fn *ssa.Function, depth int) bool {
+		if fn == nil || len(fn.Blocks) == 0 || depth > 3 {
+			return false
 		}
-		if len(b.Instrs) > 0 {
-			if r, ok := b.Instrs[len(b.Instrs)-1].(*ssa.Return); ok {
-				bad = r.Pos()
-				return false
+		seen := map[*ssa.BasicBlock]bool{}
+		var visit func(b *ssa.BasicBlock) bool
+		visit = func(b *ssa.BasicBlock) bool {
+			for _, in := range b.Instrs {
+				is, callee := isUnwindCall(in)
+				if is {
+					return true
+				}
+				if callee != nil && callee.Pkg == fn.Pkg && callee != fn {
+					save := bad
+					if always(callee, depth+1) {
+						bad = save
+						return true
+					}
+					bad = save
+				}
 			}
+			if len(b.Instrs) > 0 {
+				if r, ok := b.Instrs[len(b.Instrs)-1].(*ssa.Return); ok {
+					bad = r.Pos()
+					return false
+				}
+			}
+			for _, s := range b.Succs {
+				if seen[s] {
+					continue
+				}
+				seen[s] = true
+				if !visit(s) {
+					return false
+				}
+			}
+			return true
 		}
-		for _, s := range b.Succs {
-			if seen[s] {
-				continue
-			}
-			seen[s] = true
-			if !visit(s) {
-				return false
-			}
-		}
-		return true
+		return visit(fn.Blocks[0])
 	}
+	visit := func(b *ssa.BasicBlock) bool { return always(b.Parent(), 0) }
 	ok := visit(reset.Blocks[0])
 	c.Check(ok, "R20.5", "stack iterator reset re-walks the native stack on every path", reset.Pos(), "every path through "+reset.String()+" calls the unwinder",
 		"a path returns at "+c.Pos(bad)+" without walking the stack: the iterator presents the chain of an earlier call (stack/frame pointers do not identify a call chain)")
